@@ -123,6 +123,8 @@ def run(rep: Report) -> None:
              "other than interning calls", floor=6)
     rep.rule("R20.3", "no other test-then-write on an intern table outside the constructors (Dimension.define's definition-time "
              "resize is listed)", floor=1)
+    rep.rule("R20.7", "no function assigns a class attribute of the core classes at run time (shared state outside the dict tables)", floor=1)
+    rep.rule("R20.6", "self._initialized = True comes after the assignments of the key attributes on every path of __init__ (it is what lets other threads skip __init__)", floor=3)
     rep.rule("R20.5", "in the interning classes' __init__ every attribute an intern key is built from is assigned once on each path (no provisional "
              "value on an object other threads can already see)", floor=5)
     locks = module_locks(prog)
@@ -169,6 +171,56 @@ def run(rep: Report) -> None:
                        f"holding this (already interned) object reads the provisional value - and a thread re-running __init__ on an object "
                        "another thread already uses puts it back - so keys built from it intern a second, bogus object") if again else
                       f"{cls}.__init__ never assigns self.{a}", init.where(again[1] if again else None))
+    # R20.7: a class attribute assigned at run time is process-wide state shared by all threads, and two such stores (or a
+    # store and the read that goes with it) are never one step: a one-slot memo kept there hands one thread the unit another
+    # thread just looked up.  The only shared state the construction and lookup paths may write are the dict tables, through
+    # single-step dict operations.
+    core_classes = {ci.name for ci in prog.classes.values() if ci.module == ""}
+    n7 = 0
+    for q, fi7 in sorted(prog.functions.items()):
+        if fi7.module in ("hypothesis", "pytest", "_parser"):
+            continue
+        for st in Resolver._own_nodes(fi7.node):
+            tg = st.targets if isinstance(st, ast.Assign) else ([st.target] if isinstance(st, (ast.AugAssign, ast.AnnAssign)) and getattr(st, "value", None) is not None else [])
+            for t in [x for t_ in tg for x in (t_.elts if isinstance(t_, (ast.Tuple, ast.List)) else [t_])]:
+                if isinstance(t, ast.Attribute) and isinstance(t.value, ast.Name) and (
+                        (t.value.id == "cls" and fi7.is_classmethod) or (t.value.id in core_classes and t.value.id not in fi7.params())):
+                    n7 += 1
+                    rep.fail("R20.7", f"{q}:{ast.unparse(t)}", f"{q} assigns the class attribute `{ast.unparse(t)}` at run time: state shared by every thread, written "
+                             "and read in separate steps (a thread can be handed what another thread just stored there)", fi7.where(st))
+    if n7 == 0:
+        rep.ok("R20.7", "package", note="no function assigns a class attribute of the core classes")
+    # R20.6: `_initialized = True` tells every other thread holding the (already interned) object that it may skip __init__ and
+    # use it: on every path it must come after the assignments of the attributes the object is used through
+    for cls in ARMED:
+        init = prog.func(f"{cls}.__init__")
+        cfg = CFG(init.node)
+        stores: Dict[int, Set[str]] = {}
+        for st in ast.walk(init.node):
+            tg = st.targets if isinstance(st, ast.Assign) else ([st.target] if isinstance(st, (ast.AnnAssign, ast.AugAssign)) and getattr(st, "value", None) is not None else [])
+            tg = [x for t in tg for x in (t.elts if isinstance(t, (ast.Tuple, ast.List)) else [t])]
+            names = {t.attr for t in tg if isinstance(t, ast.Attribute) and isinstance(t.value, ast.Name) and t.value.id == "self"}
+            nid = cfg.node_of(st)
+            if names and nid is not None:
+                stores.setdefault(nid, set()).update(names)
+        must = cfg.must_before(stores)
+        keys = [a for a in KEY_ATTRS[cls] if any(a in v for v in stores.values())]
+        flags = [(nid, v) for nid, v in stores.items() if "_initialized" in v]
+        if not flags:
+            rep.ok("R20.6", f"{cls}.__init__", note="no _initialized flag")
+            continue
+        for nid, v in flags:
+            node = cfg.nodes[nid].ast
+            # only a store of True publishes
+            val = getattr(node, "value", None)
+            if not (isinstance(val, ast.Constant) and val.value is True):
+                continue
+            have = must.get(nid, set()) | (v - {"_initialized"})
+            missing = [a for a in keys if a not in have]
+            rep.check("R20.6", f"{cls}.__init__:line {getattr(node, 'lineno', 0)}", not missing,
+                      f"{cls}.__init__ sets self._initialized = True before self.{', self.'.join(missing)} is assigned: a second thread that receives the "
+                      "interned object in that window skips __init__ and uses an object without those attributes (AttributeError instead of the singleton)",
+                      init.where(node))
     for cls in INVENTORY:
         ok, why, facts = analyse_new(prog, cls, locks)
         rep.inventory("R20.1i", {"class": cls, "atomic": ok, "why": why, **facts})
